@@ -14,9 +14,15 @@ PLAN = {
     "C03": {"quick": [("fixed_w3", False), ("dyn_w3", False), ("prefix_F2_fixed", True), ("prefix_F3_dyn", True), ("prefix_F8_fixed", True)],
             "thorough": [("fixed_w3", False), ("dyn_w3", False), ("fixed_w4", False), ("dyn_w4", False),
                          ("prefix_F2_fixed", True), ("prefix_F2_dyn", True), ("prefix_F3_dyn", True), ("prefix_F8_fixed", True),
-                         ("seeded_pop_fixed", True), ("seeded_shlin_dyn", True), ("seeded_copyrange_fixed", True)]},
+                         ("seeded_pop_fixed", True), ("seeded_shlin_dyn", True), ("seeded_copyrange_fixed", True),
+                         ("seeded_rot_dyn", True), ("seeded_clonefrom_dyn", True)]},
     "C04": {"quick": [("fixed_w3", False), ("prefix_F2_fixed", True)], "thorough": [("fixed_w4", False), ("dyn_w4", False), ("prefix_F2_dyn", True)]},
-    "C18": {"quick": [("dyn_w3", False), ("prefix_F3_dyn", True)], "thorough": [("dyn_w4", False), ("prefix_F3_dyn", True)]},
+    "C18": {"quick": [("dyn_w3", False), ("prefix_F3_dyn", True), ("seeded_clonefrom_dyn", True)],
+            "thorough": [("dyn_w4", False), ("prefix_F3_dyn", True), ("seeded_clonefrom_dyn", True)]},
+    # rotations (new zeroed allocation, positions below len only) and the seeded whole-word fast path
+    "C06": {"quick": [("dyn_w3", False), ("seeded_rot_dyn", True)], "thorough": [("dyn_w4", False), ("fixed_w4", False), ("seeded_rot_dyn", True)]},
+    # append / prepend written unit by unit over whatever resize left in storage
+    "C07": {"quick": [("fixed_w3", False), ("dyn_w3", False)], "thorough": [("fixed_w4", False), ("dyn_w4", False)]},
     "C01": {"quick": [("dyn_w3", False)], "thorough": [("dyn_w4", False), ("fixed_w4", False)]},
     "C13": {"quick": [("prefix_F8_fixed", True)], "thorough": [("fixed_w4", False), ("prefix_F8_fixed", True)]},
     # design-level hash model (MCHash.tla): the fixed design passes, the two broken designs are refuted
